@@ -1051,7 +1051,14 @@ fn main() {
                 }));
             }
             Node::Func(d) => {
-                let ctx = format!("{}:{} @@{} {} {}", d.tpl_file, d.tpl_line, if d.is_slice { "slice" } else { "fn" }, d.file, d.selector);
+                let key0 = if d.is_slice {
+                    format!("{} @from:{}", d.selector, d.from.clone().unwrap_or_default())
+                } else if let Some(k) = d.hoist {
+                    format!("{} @hoist:{}", d.selector, k)
+                } else {
+                    d.selector.clone()
+                };
+                let ctx = format!("{}:{} @@{} {} {} [key={}]", d.tpl_file, d.tpl_line, if d.is_slice { "slice" } else { "fn" }, d.file, d.selector, key0);
                 let src = &srcs[&d.file];
                 let sel = parse_selector(&d.selector, &ctx);
                 let mut found = vec![];
